@@ -357,6 +357,9 @@ func sections(r *vk.Run) []section {
 				continue
 			}
 			encs, tr := variants(byte(b))
+			if !r.Thorough() && len(encs) > 3 && sv.Op(b) != sv.CONVERT {
+				encs = encs[:3] // quick: the first operand variants only
+			}
 			for _, e := range encs {
 				emit(prog{Key: encName(e) + ":" + a.Name + "," + c.Name, Class: className(e), Script: cat(a.Code, c.Code, e, tr)})
 			}
@@ -456,7 +459,10 @@ func seqAlphabet() []sv.Op {
 }
 
 func seqValues(r *vk.Run) []val {
-	v := []val{ival(bi(0)), ival(bi(1)), ival(bi(-1)), ival(add(p2(255), -1)), ival(neg(p2(255))), bval([]byte{0x00, 0x80})}
+	v := []val{ival(bi(0)), ival(bi(1)), ival(bi(-1)), ival(add(p2(255), -1)), ival(neg(p2(255)))}
+	if r.Thorough() {
+		v = append(v, bval([]byte{0x00, 0x80}))
+	}
 	return v
 }
 
